@@ -88,3 +88,73 @@ func H_C18_pptx_from_xml() {
 	}
 	vReach("end")
 }
+
+var vZipRC *zip.ReadCloser
+
+func vStubOpenZip(name string) (*zip.ReadCloser, error) { return vZipRC, nil }
+
+func vZipMember(name, content string) {
+	vZipRC.File = append(vZipRC.File, &zip.File{FileHeader: zip.FileHeader{Name: name}})
+	vZipContent(name, content)
+}
+
+// H_C18_pptx_package_text: a whole presentation opened from the texts of its parts: slides in declared order, each page
+// carrying its own title, body and speaker notes and nothing of the other slide; footer-type placeholders leave when
+// footers are excluded, the body stays.
+//
+//symgo:harness prop=C18 kernel=K3-pptx-package-text noreplay=1
+//symgo:redirect archive/zip.OpenReader vStubOpenZip
+//symgo:desc zip layer cut (member content model); two slides declared in the order slide2, slide1 or slide1, slide2 (enumerated); each slide has a title, a body paragraph, a footer placeholder (ftr), a slide-number placeholder (sldNum) and a notes slide reached through its own relationships - slide1's notes live in notesSlide2.xml and slide2's in notesSlide1.xml (crosswise file numbers); Text with notes: page i holds slide i's title, body and notes and none of the other slide's; with ExcludeFooters the footer and slide-number texts are gone from every page and titles, bodies and notes remain
+func H_C18_pptx_package_text() {
+	const ns = `xmlns:a="http://schemas.openxmlformats.org/drawingml/2006/main" xmlns:r="http://schemas.openxmlformats.org/officeDocument/2006/relationships" xmlns:p="http://schemas.openxmlformats.org/presentationml/2006/main"`
+	sp := func(ph, text string) string {
+		return `<p:sp><p:nvSpPr><p:cNvPr id="2" name="x"/><p:cNvSpPr/><p:nvPr><p:ph type="` + ph + `"/></p:nvPr></p:nvSpPr><p:spPr/><p:txBody><a:bodyPr/><a:p><a:r><a:t>` + text + `</a:t></a:r></a:p></p:txBody></p:sp>`
+	}
+	slide := func(k string) string {
+		return `<?xml version="1.0"?><p:sld ` + ns + `><p:cSld><p:spTree><p:nvGrpSpPr><p:cNvPr id="1" name=""/><p:cNvGrpSpPr/><p:nvPr/></p:nvGrpSpPr><p:grpSpPr/>` +
+			sp("title", "Title"+k) + sp("body", "Body"+k) + sp("ftr", "FooterText"+k) + sp("sldNum", "Num"+k) + `</p:spTree></p:cSld></p:sld>`
+	}
+	notes := func(k string) string {
+		return `<?xml version="1.0"?><p:notes ` + ns + `><p:cSld><p:spTree><p:nvGrpSpPr><p:cNvPr id="1" name=""/><p:cNvGrpSpPr/><p:nvPr/></p:nvGrpSpPr><p:grpSpPr/>` +
+			`<p:sp><p:nvSpPr><p:cNvPr id="2" name="img"/><p:cNvSpPr/><p:nvPr><p:ph type="sldImg"/></p:nvPr></p:nvSpPr><p:spPr/></p:sp>` + sp("body", "Notes"+k) + `</p:spTree></p:cSld></p:notes>`
+	}
+	rels := func(target string) string {
+		return `<?xml version="1.0"?><Relationships xmlns="http://schemas.openxmlformats.org/package/2006/relationships"><Relationship Id="rId1" Type="http://schemas.openxmlformats.org/officeDocument/2006/relationships/slideLayout" Target="../slideLayouts/slideLayout1.xml"/><Relationship Id="rId2" Type="http://schemas.openxmlformats.org/officeDocument/2006/relationships/notesSlide" Target="` + target + `"/></Relationships>`
+	}
+	first := vAnyIntIn(1, 2)
+	order := []string{"1", "2"}
+	if first == 2 {
+		order = []string{"2", "1"}
+	}
+	vZipRC = &zip.ReadCloser{}
+	vZipMember("[Content_Types].xml", `<?xml version="1.0"?><Types xmlns="http://schemas.openxmlformats.org/package/2006/content-types"/>`)
+	vZipMember("ppt/presentation.xml", `<?xml version="1.0"?><p:presentation `+ns+`><p:sldIdLst><p:sldId id="256" r:id="rId`+order[0]+`"/><p:sldId id="257" r:id="rId`+order[1]+`"/></p:sldIdLst></p:presentation>`)
+	vZipMember("ppt/_rels/presentation.xml.rels", `<?xml version="1.0"?><Relationships xmlns="http://schemas.openxmlformats.org/package/2006/relationships"><Relationship Id="rId1" Type="http://schemas.openxmlformats.org/officeDocument/2006/relationships/slide" Target="slides/slide1.xml"/><Relationship Id="rId2" Type="http://schemas.openxmlformats.org/officeDocument/2006/relationships/slide" Target="slides/slide2.xml"/></Relationships>`)
+	vZipMember("ppt/slides/slide1.xml", slide("1"))
+	vZipMember("ppt/slides/slide2.xml", slide("2"))
+	vZipMember("ppt/slides/_rels/slide1.xml.rels", rels("../notesSlides/notesSlide2.xml"))
+	vZipMember("ppt/slides/_rels/slide2.xml.rels", rels("../notesSlides/notesSlide1.xml"))
+	vZipMember("ppt/notesSlides/notesSlide2.xml", notes("1"))
+	vZipMember("ppt/notesSlides/notesSlide1.xml", notes("2"))
+	r, err := Open("any.pptx")
+	vAssert("opens", err == nil && r != nil)
+	vAssert("two-slides", len(r.slides) == 2)
+	for i, k := range order {
+		other := "1"
+		if k == "1" {
+			other = "2"
+		}
+		for _, excl := range []bool{false, true} {
+			txt, terr := r.TextWithOptions(ExtractOptions{SlideNumbers: []int{i}, IncludeTitles: true, IncludeNotes: true, ExcludeFooters: excl})
+			vAssert("text-no-error", terr == nil)
+			vAssert("own-title-body-notes", strings.Contains(txt, "Title"+k) && strings.Contains(txt, "Body"+k) && strings.Contains(txt, "Notes"+k))
+			vAssert("nothing-of-the-other-slide", !strings.Contains(txt, "Title"+other) && !strings.Contains(txt, "Body"+other) && !strings.Contains(txt, "Notes"+other) && !strings.Contains(txt, "FooterText"+other))
+			if excl {
+				vAssert("footer-placeholders-excluded", !strings.Contains(txt, "FooterText") && !strings.Contains(txt, "Num"+k))
+			} else {
+				vAssert("footer-placeholders-kept-by-default", strings.Contains(txt, "FooterText"+k) && strings.Contains(txt, "Num"+k))
+			}
+		}
+	}
+	vReach("end")
+}
